@@ -436,7 +436,7 @@ def dominated_by_fresh_store(f, fld, line):
 def run_c19(pid='C19', tier='quick', seed=0):
     repo = _repo()
     obls = []
-    allowed_in_try = {'encode', 'decode', 'decodebytes', 'encodebytes', 'decodestring', '__import__', 'sorted', 'raw_decode', 'items', 'list', 'hasattr', 'construct_scalar', 'bytes'}
+    allowed_in_try = {'hash', 'encode', 'decode', 'decodebytes', 'encodebytes', 'decodestring', '__import__', 'sorted', 'raw_decode', 'items', 'list', 'hasattr', 'construct_scalar', 'bytes'}
     bad, n_try = [], 0
     for f in repo.all_funcs():
         for n in ast.walk(f.node):
